@@ -30,6 +30,11 @@ type c13query struct {
 	mayFail bool
 	// single: only run as a single-query harness (the parallelism is the query's own)
 	single bool
+	// pg: built with PostgresEscapingDialect; expect: the rows the query must return alone (rendered),
+	// checked in addition to "same as the solo run" - a solo run can itself be a victim of state left
+	// behind by the solo run of the other thread
+	pg     bool
+	expect string
 }
 
 var c13Queries = []c13query{
@@ -54,6 +59,9 @@ var c13Queries = []c13query{
 	// queries built without any option: nothing but the selector cache and the registries may be shared
 	{name: "getvar-no-options", sql: "SELECT id, GETVAR('k') AS v FROM t", noopts: true},
 	{name: "setvar-no-options", sql: "SELECT SETVAR('k', a), id FROM t", noopts: true, mayFail: true},
+	// one statement text, two readings: with the dialect option "a" is a column, without it a string
+	{name: "dquote-pg", sql: "SELECT \"a\" AS x FROM t", pg: true, expect: `{"x":1};{"x":2}`},
+	{name: "dquote-plain", sql: "SELECT \"a\" AS x FROM t", expect: `{"x":"a"};{"x":"a"}`},
 	// the query's own parallelism only: one copy of the query per inner array, each with ASYNC calls
 	// the parent has to await; ASYNC / SPINASYNC calls that read or write the variable store next to
 	// the evaluating goroutine's own SETVAR / GETVAR
@@ -190,6 +198,9 @@ func (p *c13) RunCase(i int) *core.CaseResult {
 		if c13Queries[c.qs[k]].noopts {
 			return nil
 		}
+		if c13Queries[c.qs[k]].pg {
+			return []genql.QueryOption{genql.WithVars(map[string]any{}), genql.PostgresEscapingDialect()}
+		}
 		return []genql.QueryOption{genql.WithVars(map[string]any{})}
 	}
 	raceSeen := map[string]bool{}
@@ -227,6 +238,10 @@ func (p *c13) RunCase(i int) *core.CaseResult {
 		}
 		if c13Queries[c.qs[k]].bag {
 			sort.Strings(solo[k])
+		}
+		if e := c13Queries[c.qs[k]].expect; e != "" && strings.Join(solo[k], ";") != e {
+			r.Fail(p.sig(c, "solo-wrong"), fmt.Sprintf("%s alone (after the solo runs of the threads before it) returned %v, want %s", sqls[k], solo[k], e), map[string]any{"sql": sqls[k]})
+			return r
 		}
 	}
 	outs := make([]*gq.Out, n)
@@ -344,7 +359,7 @@ func (p *c13) RunCase(i int) *core.CaseResult {
 
 func (p *c13) Meta() core.Meta {
 	return core.Meta{
-		Rule: "one case per harness: 1 query alone (internal parallelism), or every unordered pair (thorough: also triples over a 7-query subset) of 18 queries, plus 6 single-only harnesses (ASYNC in a nested FROM with several inner arrays, ASYNC / SPINASYNC readers and writers of the variable store next to SETVAR / GETVAR, ASYNC inside a row-scoped subquery and inside a CTE read twice) (filter, projection, fresh path selector, group-by, joins incl. PARALLEL hash and nested, ASYNC, SPINASYNC, CTE, IN-subquery, EXISTS, ORDER BY+DISTINCT, SETVAR/GETVAR, UNION and JOIN USING with the same text in every thread, GETVAR / SETVAR built without any option) x {separate documents, one shared document} x {cold selector cache, warm cache}; each case = stateless exploration of every interleaving with <= 2 (thorough 3) preemptions at sync-operation granularity of the real engine under the -race build; oracle per schedule: no new race report, no deadlock / goroutine panic (scheduler), every thread's result equals its solo result. non-trivial = more than one schedule executed",
+		Rule: "one case per harness: 1 query alone (internal parallelism), or every unordered pair (thorough: also triples over a 7-query subset) of 20 queries, plus 6 single-only harnesses (ASYNC in a nested FROM with several inner arrays, ASYNC / SPINASYNC readers and writers of the variable store next to SETVAR / GETVAR, ASYNC inside a row-scoped subquery and inside a CTE read twice) (filter, projection, fresh path selector, group-by, joins incl. PARALLEL hash and nested, ASYNC, SPINASYNC, CTE, IN-subquery, EXISTS, ORDER BY+DISTINCT, SETVAR/GETVAR, UNION and JOIN USING with the same text in every thread, GETVAR / SETVAR built without any option, one statement text with and without PostgresEscapingDialect) x {separate documents, one shared document} x {cold selector cache, warm cache}; each case = stateless exploration of every interleaving with <= 2 (thorough 3) preemptions at sync-operation granularity of the real engine under the -race build; oracle per schedule: no new race report, no deadlock / goroutine panic (scheduler), every thread's result equals its solo result. non-trivial = more than one schedule executed",
 		Assumptions: []string{
 			"scheduling points at every Mutex/RWMutex/WaitGroup operation, go statement, thread exit and harness yield; unsynchronised accesses are covered by the happens-before race monitor on each explored schedule (DRF-SC)",
 			"the race detector reports each distinct race (stack pair) once per worker process; a report is attributed to the first case of that worker that exhibits it",
